@@ -497,10 +497,16 @@ def mutate(schema, draw):
         if not types:
             break
         m, d = draw(st.sampled_from(types))
+        multi_based = [(mm_, dd) for mm_, dd in types if len(dd['bases']) >= 2]
+        forced = None
+        if multi_based and draw(st.integers(0, 3)) == 0:
+            # re-parent a type that already has several bases (positional insertion)
+            m, d = draw(st.sampled_from(multi_based))
+            forced = 'insert_two_bases'
         q = qname(m, d['name'])
         ptrs = [mm for mm in d['members'] if mm['kind'] in ('property', 'link')
                 and not mm.get('overloaded')]
-        kind = draw(st.sampled_from([
+        kind = forced or draw(st.sampled_from([
             'add_prop', 'drop_member', 'rename_ptr', 'toggle_required', 'toggle_card',
             'retype', 'add_constraint', 'drop_constraint', 'add_index', 'set_default',
             'drop_default', 'rename_type', 'toggle_abstract', 'add_base', 'drop_base',
@@ -912,4 +918,28 @@ def ensure_deep_sites(schema, draw):
                 if mm['kind'] == 'link' and mm.get('expr') is None and not mm.get('overloaded') \
                         and not mm.get('linkprops') and draw(st.integers(0, 1)):
                     mm['linkprops'].append(['lp', 'str', "max_len_value(9) { errmessage := 'lp too long' }"])
+    return s
+
+
+def add_multi_base_family(schema, draw):
+    """add (to the first module) a self-contained family with multiple inheritance:
+    FA {fa}, FB {fb}, optionally FC0 {fc}, and FC extending FA, FB[, FC0]; pointer names are
+    fresh, so nothing conflicts.  Used to reach re-parenting with several positional insertions."""
+    from hypothesis import strategies as st
+    s = copy.deepcopy(schema)
+    m = sorted(s['modules'])[0]
+    if any(d['name'] in ('FA', 'FB', 'FC') for d in s['modules'][m]):
+        return s
+
+    def prop(n, dv):
+        return dict(kind='property', name=n, target='str', card='single', required=False, expr=None,
+                    default=f"'{dv}'", constraints=[], annotations=[], linkprops=[])
+    bases = ['FA', 'FB'] + (['FC0'] if draw(st.booleans()) else [])
+    for b in bases:
+        s['modules'][m].append(dict(kind='type', name=b, abstract=draw(st.booleans()), bases=[],
+                                    members=[prop('f' + b[1:].lower(), 'from ' + b),
+                                             prop('shared_' + b[1:].lower(), b)]))
+    s['modules'][m].append(dict(kind='type', name='FC', abstract=False,
+                                bases=[qname(m, b) for b in bases],
+                                members=[prop('own', 'c')]))
     return s
